@@ -301,6 +301,180 @@ Proof.
   match goal with |- context [let '(s1, v) := ?e in _] => destruct e as [s1 v] end. cbn [fst snd].
   unfold rd. rewrite nget_upd_same. destruct (nget nd (info s1)); cbn; auto.
 Qed.
+
+(* ---- tree.preprocessing: only compute_leaf_legs writes it (when it caches the legs of a leaf) ---- *)
+Definition preok (sl : list slinfo) (k : nat) (e : list nat * list nat) : Prop :=
+  exists tk, leaf_preproc n sl k = Some tk /\ canon_eq1 tk = e.
+Definition p2 (sl : list slinfo) (k : nat) (p : list (nat * (list nat * list nat))) : Prop :=
+  leaf_preproc n sl k <> None -> pget k p <> None.
+Definition pkeys (p : list (nat * (list nat * list nat))) : list nat := map fst p.
+Definition pstep (sl : list slinfo) (s s' : tstate) : Prop :=
+  (NoDup (pkeys (preproc s)) -> NoDup (pkeys (preproc s'))) /\
+  (forall k, pget k (preproc s) <> None -> pget k (preproc s') <> None) /\
+  (forall k e, pget k (preproc s') = Some e -> pget k (preproc s) = Some e \/ (preok sl k e /\ rd i_legs s [k] = None)) /\
+  (forall k, rd i_legs s [k] = None -> rd i_legs s' [k] <> None -> p2 sl k (preproc s')).
+Lemma pstep_same sl s s' : preproc s' = preproc s -> (forall k, rd i_legs s' [k] = rd i_legs s [k]) -> pstep sl s s'.
+Proof.
+  intros E H. unfold pstep. rewrite E. split; [auto|]. split; [auto|]. split; [auto|]. intros k H1 H2. rewrite H in H2. contradiction.
+Qed.
+Lemma pstep_refl sl s : pstep sl s s.
+Proof. apply pstep_same; auto. Qed.
+Lemma pstep_trans sl s1 s2 s3 : pstep sl s1 s2 -> pstep sl s2 s3 ->
+  (forall k, rd i_legs s2 [k] = None -> rd i_legs s1 [k] = None) -> pstep sl s1 s3.
+Proof.
+  intros (A1&A2&A3&A4) (B1&B2&B3&B4) Hm. split; [auto|]. split; [auto|]. split.
+  - intros k e H. destruct (B3 k e H) as [H'|[H1 H2]]; [apply A3, H'|right; split; [exact H1|apply Hm, H2]].
+  - intros k H1 H3. destruct (rd i_legs s2 [k]) as [lg|] eqn:E2.
+    + intros Hl. apply B2, (A4 k H1); [rewrite E2; discriminate|exact Hl].
+    + apply B4; [exact E2|exact H3].
+Qed.
+Lemma preproc_upd nd f s : preproc (upd_info nd f s) = preproc s.
+Proof. unfold upd_info. destruct (nget nd (info s)); reflexivity. Qed.
+Lemma pstep_upd_keep sl nd f s : (forall i, i_legs (f i) = i_legs i) -> pstep sl s (upd_info nd f s).
+Proof.
+  intros Hf. apply pstep_same; [apply preproc_upd|]. intros k.
+  destruct (node_eq_dec [k] nd) as [<-|Hq]; [|apply rd_upd_other, Hq].
+  destruct (nget [k] (info s)) as [i|] eqn:E.
+  - rewrite (rd_upd_same i_legs [k] f s i E). unfold rd. rewrite E. apply Hf.
+  - unfold upd_info. rewrite E. reflexivity.
+Qed.
+Lemma pstep_upd_nonleaf sl nd f s : length nd <> 1 -> pstep sl s (upd_info nd f s).
+Proof.
+  intros Hl. apply pstep_same; [apply preproc_upd|]. intros k. apply rd_upd_other. intros E. apply Hl. rewrite <- E. reflexivity.
+Qed.
+Lemma pget_pset_same {V} k (v : V) d : pget k (pset k v d) = Some v.
+Proof.
+  induction d as [|[k' w] d IH]; cbn; [rewrite Nat.eqb_refl; reflexivity|].
+  destruct (Nat.eqb k' k) eqn:E; cbn; rewrite E; [reflexivity|exact IH].
+Qed.
+Lemma pget_pset_other {V} k k' (v : V) d : k' <> k -> pget k' (pset k v d) = pget k' d.
+Proof.
+  intros Hn. induction d as [|[k0 w] d IH]; cbn.
+  - destruct (Nat.eqb_spec k k'); [congruence|reflexivity].
+  - destruct (Nat.eqb_spec k0 k) as [->|Hk]; cbn.
+    + destruct (Nat.eqb_spec k k'); [congruence|reflexivity].
+    + destruct (Nat.eqb k0 k'); [reflexivity|exact IH].
+Qed.
+Lemma pget_in_keys {V} k (d : list (nat * V)) : pget k d <> None <-> In k (map fst d).
+Proof.
+  induction d as [|[k' w] d IH]; cbn; [split; [congruence|tauto]|].
+  destruct (Nat.eqb_spec k' k) as [->|Hn]; [split; [auto|discriminate]|].
+  rewrite IH. split; [auto|]. intros [H|H]; [congruence|exact H].
+Qed.
+Lemma NoDup_pset {V} k (v : V) d : NoDup (map fst d) -> NoDup (map fst (pset k v d)).
+Proof.
+  induction d as [|[k' w] d IH]; cbn; intros ND; [constructor; [tauto|constructor]|].
+  inversion ND as [|? ? Hn ND']; subst. destruct (Nat.eqb_spec k' k) as [->|Hk]; cbn; [constructor; assumption|].
+  constructor; [|apply IH, ND']. intros Hin. apply Hn. apply pget_in_keys in Hin. rewrite pget_pset_other in Hin by exact Hk.
+  apply pget_in_keys, Hin.
+Qed.
+(* compute_leaf_legs followed by caching the legs on the leaf *)
+Lemma pstep_leaf_fill s nd v : length nd = 1 -> rd i_legs s nd = None ->
+  pstep (sliced s) s (upd_info nd (w_legs (Some v)) (fst (compute_leaf_legs n s (hd 0 nd)))).
+Proof.
+  intros E1 Er. rewrite (len1 nd E1) in *. set (k := hd 0 nd) in *. cbn [hd]. unfold compute_leaf_legs. cbn [fst].
+  set (s' := match leaf_preproc n (sliced s) k with Some tk => set_preproc (pset k (canon_eq1 tk) (preproc s)) s | None => s end).
+  assert (Ei : info s' = info s) by (unfold s'; destruct (leaf_preproc n (sliced s) k); reflexivity).
+  assert (Hrd : forall k', k' <> k -> rd i_legs (upd_info [k] (w_legs (Some v)) s') [k'] = rd i_legs s [k']).
+  { intros k' Hk. rewrite rd_upd_other by congruence. unfold rd. rewrite Ei. reflexivity. }
+  unfold pstep. rewrite preproc_upd.
+  destruct (leaf_preproc n (sliced s) k) as [tk|] eqn:El; unfold s'; cbn [set_preproc preproc].
+  - split; [apply NoDup_pset|]. split.
+    { intros k' H. destruct (Nat.eq_dec k' k) as [->|Hk]; [rewrite pget_pset_same; discriminate|rewrite pget_pset_other by exact Hk; exact H]. }
+    split.
+    { intros k' e H. destruct (Nat.eq_dec k' k) as [->|Hk].
+      - rewrite pget_pset_same in H. injection H as <-. right. split; [exists tk; auto|exact Er].
+      - rewrite pget_pset_other in H by exact Hk. left. exact H. }
+    intros k' H1 H2. destruct (Nat.eq_dec k' k) as [->|Hk]; [intros _; rewrite pget_pset_same; discriminate|].
+    rewrite Hrd in H2 by exact Hk. contradiction.
+  - split; [auto|]. split; [auto|]. split; [auto|]. intros k' H1 H2.
+    destruct (Nat.eq_dec k' k) as [->|Hk]; [intros Hc; congruence|]. rewrite Hrd in H2 by exact Hk. contradiction.
+Qed.
+Lemma srelB_legs_none LV P s s' q : srel (RcB LV P) s s' -> rd i_legs s' q = None -> rd i_legs s q = None.
+Proof.
+  intros (A1&_) H. unfold rd in *. destruct (nget q (info s)) as [i|] eqn:E; [|reflexivity].
+  destruct (irel_nget _ _ _ A1 q i E) as (i' & E' & _ & Hr). rewrite E' in H.
+  destruct (i_legs i) as [lg|] eqn:El; [|reflexivity]. exfalso.
+  destruct (P q); [cbn in Hr|]; congruence.
+Qed.
+
+Definition PL (f : nat) : Prop := forall s nd, chok (children s) -> pstep (sliced s) s (fst (get_legs n f s nd)).
+Definition PIv (f : nat) : Prop := forall s nd, chok (children s) -> pstep (sliced s) s (fst (get_involved n f s nd)).
+Lemma fallback_pstep f' : PL f' -> forall xs s2 acc, chok (children s2) ->
+  pstep (sliced s2) s2
+       (fst (fold_left (fun acc i => let '(sa, l) := get_legs n f' (fst acc) [i] in (sa, snd acc ++ [l])) xs (s2, acc))).
+Proof.
+  intros HF. induction xs as [|x xs IH]; intros s2 acc Hch; cbn [fold_left]; [apply pstep_refl|].
+  cbn [fst snd]. pose proof (HF s2 [x] Hch) as H1. pose proof (proj1 (frames_all f') s2 [x] Hch) as F1.
+  destruct (get_legs n f' s2 [x]) as [sa l]. cbn [fst] in H1, F1.
+  assert (Esl : sliced sa = sliced s2) by apply F1. assert (Ech : children sa = children s2) by apply F1.
+  eapply pstep_trans; [exact H1| |intros k; apply (srelB_legs_none _ _ _ _ _ F1)].
+  rewrite <- Esl. apply IH. rewrite Ech. exact Hch.
+Qed.
+Lemma psteps_step f' : PL f' /\ PIv f' -> PL (S f') /\ PIv (S f').
+Proof.
+  intros [HPL HPI]. split.
+  - intros s nd Hch. rewrite get_legs_S. destruct (rd i_legs s nd) as [lg|] eqn:Er; [apply pstep_refl|].
+    destruct (Nat.eqb_spec (length nd) 1) as [E1|E1].
+    { pose proof (pstep_leaf_fill s nd (leaf_legs n (sliced s) (hd 0 nd)) E1 Er) as H.
+      unfold compute_leaf_legs in *. cbn [fst snd] in *. exact H. }
+    destruct (Nat.eqb (length nd) N).
+    { cbn [fst snd]. apply pstep_upd_nonleaf, E1. }
+    pose proof (HPI s nd Hch) as H2. pose proof (proj2 (frames_all f') s nd Hch) as F2.
+    destruct (get_involved n f' s nd) as [s2 [inv|]] eqn:Ei; cbn [fst] in H2, F2.
+    + cbn [fst snd]. eapply pstep_trans; [exact H2|apply pstep_upd_nonleaf, E1|intros k; apply (srelB_legs_none _ _ _ _ _ F2)].
+    + assert (Hch2 : chok (children s2)) by (destruct F2 as (_&E&_); rewrite E; exact Hch).
+      assert (Esl2 : sliced s2 = sliced s) by apply F2.
+      pose proof (fallback_pstep f' HPL nd s2 [] Hch2) as H3. rewrite Esl2 in H3.
+      pose proof (fallback_frame f' (proj1 (frames_all f')) nd s2 [] Hch2) as F3.
+      destruct (fold_left _ nd (s2, [])) as [s3 ls] eqn:Ef. cbn [fst] in H3, F3. cbn [fst snd].
+      eapply pstep_trans; [exact H2| |intros k; apply (srelB_legs_none _ _ _ _ _ F2)].
+      eapply pstep_trans; [exact H3|apply pstep_upd_nonleaf, E1|intros k; apply (srelB_legs_none _ _ _ _ _ F3)].
+  - intros s nd Hch. rewrite get_involved_S. destruct (rd i_involved s nd) as [inv|] eqn:Er; [apply pstep_refl|].
+    destruct (Nat.eqb (length nd) 1).
+    { cbn [fst]. apply pstep_upd_keep. intros i. reflexivity. }
+    destruct (nget nd (children s)) as [[l r]|] eqn:Ech; [|apply pstep_refl].
+    pose proof (HPL s l Hch) as H1. pose proof (proj1 (frames_all f') s l Hch) as F1.
+    destruct (get_legs n f' s l) as [s1 ll]. cbn [fst] in H1, F1.
+    assert (Hch1 : chok (children s1)) by (destruct F1 as (_&E&_); rewrite E; exact Hch).
+    assert (Esl1 : sliced s1 = sliced s) by apply F1.
+    pose proof (HPL s1 r Hch1) as H2. rewrite Esl1 in H2. pose proof (proj1 (frames_all f') s1 r Hch1) as F2.
+    destruct (get_legs n f' s1 r) as [s2 lr]. cbn [fst] in H2, F2. cbn [fst].
+    eapply pstep_trans; [exact H1| |intros k; apply (srelB_legs_none _ _ _ _ _ F1)].
+    eapply pstep_trans; [exact H2|apply pstep_upd_keep; intros i; reflexivity|intros k; apply (srelB_legs_none _ _ _ _ _ F2)].
+Qed.
+Lemma psteps_all f : PL f /\ PIv f.
+Proof.
+  induction f as [|f IH]; [|apply psteps_step, IH]. split; intros s nd _; cbn [get_legs get_involved fst];
+    (apply pstep_same; [reflexivity|intros; reflexivity]).
+Qed.
+Lemma srelC_legs_none LV s s' q : srel (Rc LV) s s' -> rd i_legs s' q = None -> rd i_legs s q = None.
+Proof.
+  intros (A1&_) H. unfold rd in *. destruct (nget q (info s)) as [i|] eqn:E; [|reflexivity].
+  destruct (irel_nget _ _ _ A1 q i E) as (i' & E' & _ & Hr). rewrite E' in H.
+  destruct (i_legs i) as [lg|] eqn:El; [|reflexivity]. cbn in Hr. congruence.
+Qed.
+Lemma g_legs_pstep s nd : chok (children s) -> pstep (sliced s) s (fst (g_legs n s nd)).
+Proof. intros H. apply (proj1 (psteps_all (fuel n s)) s nd H). Qed.
+Lemma g_involved_pstep s nd : chok (children s) -> pstep (sliced s) s (fst (g_involved n s nd)).
+Proof.
+  intros H. unfold g_involved. pose proof (proj2 (psteps_all (fuel n s)) s nd H) as H1.
+  destruct (get_involved n (fuel n s) s nd) as [s' [v|]]; cbn [fst] in *; [exact H1|].
+  destruct H1 as (A1&A2&A3&A4). split; [exact A1|]. split; [exact A2|]. split; [exact A3|exact A4].
+Qed.
+Lemma g_size_pstep s nd : chok (children s) -> pstep (sliced s) s (fst (g_size n s nd)).
+Proof.
+  intros H. unfold g_size. destruct (rd i_size s nd); [apply pstep_refl|].
+  pose proof (g_legs_pstep s nd H) as H1. pose proof (g_legs_rel s nd H) as F1. destruct (g_legs n s nd) as [s1 l]. cbn [fst] in *.
+  eapply pstep_trans; [exact H1|apply pstep_upd_keep; intros i; reflexivity|intros k; apply (srelC_legs_none _ _ _ _ F1)].
+Qed.
+Lemma g_flops_pstep s nd : chok (children s) -> pstep (sliced s) s (fst (g_flops n s nd)).
+Proof.
+  intros H. unfold g_flops. destruct (rd i_flops s nd); [apply pstep_refl|].
+  destruct (Nat.eqb (length nd) 1); [cbn [fst]; apply pstep_upd_keep; intros i; reflexivity|].
+  pose proof (g_involved_pstep s nd H) as H1. pose proof (g_involved_rel s nd H) as F1. destruct (g_involved n s nd) as [s1 l]. cbn [fst] in *.
+  eapply pstep_trans; [exact H1|apply pstep_upd_keep; intros i; reflexivity|intros k; apply (srelC_legs_none _ _ _ _ F1)].
+Qed.
 End Getters.
 
 (* ======================================================================== *)
@@ -312,29 +486,38 @@ Hypothesis HN : 2 <= N.
 Notation RC sl := (Rc (fresh_ok n sl)).
 
 (* cost-only operations: the frame relative to the current sliced set *)
-Definition crel (s s' : tstate) : Prop := srel (RC (sliced s)) s s'.
+Definition crel (s s' : tstate) : Prop := srel (RC (sliced s)) s s' /\ pstep n (sliced s) s s'.
+Lemma crel_srel s s' : crel s s' -> srel (RC (sliced s)) s s'.
+Proof. intros [H _]. exact H. Qed.
 Lemma crel_refl s : crel s s.
-Proof. apply srelC_refl. Qed.
+Proof. split; [apply srelC_refl|apply pstep_refl]. Qed.
 Lemma crel_trans s1 s2 s3 : crel s1 s2 -> crel s2 s3 -> crel s1 s3.
-Proof. unfold crel. intros H1 H2. eapply srelC_trans; [exact H1|]. destruct H1 as (_&_&E&_). rewrite <- E. exact H2. Qed.
+Proof.
+  unfold crel. intros [H1 Q1] [H2 Q2]. assert (E : sliced s2 = sliced s1) by apply H1. rewrite E in H2, Q2. split.
+  - eapply srelC_trans; eassumption.
+  - eapply pstep_trans; [exact Q1|exact Q2|intros k; apply (srelC_legs_none _ _ _ _ H1)].
+Qed.
 Lemma crel_chok s s' : crel s s' -> chok (children s) -> chok (children s').
-Proof. intros (_&E&_) H. rewrite E. exact H. Qed.
+Proof. intros [(_&E&_) _] H. rewrite E. exact H. Qed.
 Lemma crel_fields s s' : info s' = info s -> children s' = children s -> sliced s' = sliced s ->
-  (err s = true -> err s' = true) -> crel s s'.
-Proof. apply srelC_fields. Qed.
+  (err s = true -> err s' = true) -> preproc s' = preproc s -> crel s s'.
+Proof.
+  intros E1 E2 E3 E4 E5. split; [apply srelC_fields; assumption|]. apply pstep_same; [exact E5|].
+  intros k. unfold rd. rewrite E1. reflexivity.
+Qed.
 Lemma crel_keep nd f s : (forall i, rec_same i (f i) /\ i_legs (f i) = i_legs i) -> crel s (upd_info nd f s).
-Proof. apply srelC_keep. Qed.
+Proof. intros H. split; [apply srelC_keep, H|apply pstep_upd_keep; intros i; apply H]. Qed.
 Lemma crel_err s s' : crel s s' -> err s' = false -> err s = false.
-Proof. intros (_&_&_&E) H. destruct (err s); [rewrite E in H by reflexivity; discriminate|reflexivity]. Qed.
+Proof. intros [(_&_&_&E) _] H. destruct (err s); [rewrite E in H by reflexivity; discriminate|reflexivity]. Qed.
 
 Lemma g_legs_crel s nd : chok (children s) -> crel s (fst (g_legs n s nd)).
-Proof. apply g_legs_rel, HN. Qed.
+Proof. intros H. split; [apply g_legs_rel; assumption|apply g_legs_pstep; assumption]. Qed.
 Lemma g_involved_crel s nd : chok (children s) -> crel s (fst (g_involved n s nd)).
-Proof. apply g_involved_rel, HN. Qed.
+Proof. intros H. split; [apply g_involved_rel; assumption|apply g_involved_pstep; assumption]. Qed.
 Lemma g_size_crel s nd : chok (children s) -> crel s (fst (g_size n s nd)).
-Proof. apply g_size_rel, HN. Qed.
+Proof. intros H. split; [apply g_size_rel; assumption|apply g_size_pstep; assumption]. Qed.
 Lemma g_flops_crel s nd : chok (children s) -> crel s (fst (g_flops n s nd)).
-Proof. apply g_flops_rel, HN. Qed.
+Proof. intros H. split; [apply g_flops_rel; assumption|apply g_flops_pstep; assumption]. Qed.
 
 Lemma update_tracked_crel nd s : chok (children s) -> crel s (update_tracked n nd s).
 Proof.
@@ -470,7 +653,7 @@ Proof. intros HP nd i Hi. destruct (HP nd i Hi) as [P1 P2]. split; [exact P1|]. 
 
 Lemma PA_crel s s' : PA s -> crel s s' -> PA s'.
 Proof.
-  intros HP HC. unfold PA. destruct HC as (A1&A2&A3&A4). rewrite A3.
+  intros HP HC. apply crel_srel in HC. unfold PA. destruct HC as (A1&A2&A3&A4). rewrite A3.
   apply (PAX_srel _ (fresh_ok n (sliced s)) _ s s' HP); [exact (conj A1 (conj A2 (conj A3 A4)))|auto].
 Qed.
 Lemma PAe_crel s s' : PAe s -> crel s s' -> PAe s'.
@@ -538,7 +721,7 @@ Proof.
   { unfold clear_info. destruct (upd_info_fields nd (fun _ => noinfo) s) as (F1&F2&_). cbn [set_preproc sliced children err].
     rewrite F1, F2. split; [reflexivity|]. split; [exact Hc|]. unfold upd_info. destruct (nget nd (info s)); cbn; auto. }
   cbn zeta. pose proof (rn_pre_crel nd s Hc) as H3. set (s3 := rn_pre nd s) in *.
-  destruct H3 as (_&E2&E3&E4).
+  destruct (crel_srel _ _ H3) as (_&E2&E3&E4).
   set (s4 := if nmem nd (children s3) then _ else set_err s3).
   assert (H4 : sliced s4 = sliced s /\ chok (children s4) /\ (err s = true -> err s4 = true)).
   { unfold s4. destruct (nmem nd (children s3)); cbn [set_children set_err sliced children err].
@@ -556,8 +739,8 @@ Proof.
   intros Hc ND HL HP. rewrite remove_node_eq. destruct (Nat.eqb (length nd) 1).
   { apply (PAX_info _ _ (clear_info nd s)); [reflexivity|]. apply PAX_upd; [exact HP|]. intros; apply entA_noinfo. }
   cbn zeta. pose proof (rn_pre_crel nd s Hc) as H3. set (s3 := rn_pre nd s) in *.
-  assert (P3 : PAX LV X s3) by (apply (PAX_srel LV _ X s s3 HP H3 HL)).
-  assert (ND3 : NoDup (nkeys (info s3))) by (destruct H3 as (A1&_); rewrite (irel_nkeys _ _ _ A1); exact ND).
+  assert (P3 : PAX LV X s3) by (apply (PAX_srel LV _ X s s3 HP (crel_srel _ _ H3) HL)).
+  assert (ND3 : NoDup (nkeys (info s3))) by (destruct (crel_srel _ _ H3) as (A1&_); rewrite (irel_nkeys _ _ _ A1); exact ND).
   set (s4 := if nmem nd (children s3) then _ else set_err s3).
   assert (E4 : info s4 = info s3) by (unfold s4; destruct (nmem nd (children s3)); reflexivity).
   assert (P4 : PAX LV X s4) by (apply (PAX_info _ _ s3); assumption).
@@ -676,8 +859,8 @@ Proof.
   pose proof (PAX_cp_pre LV X x y lg c z s HP Hl) as P5. set (s5 := cp_pre x y lg c z s) in *.
   assert (Hc5 : chok (children s5)) by (rewrite F1; apply chok_pair; assumption).
   pose proof (update_tracked_crel (nunion x y) s5 Hc5) as H6.
-  split; [apply (PAX_srel LV _ X s5 _ P5 H6); rewrite F2; exact HL|].
-  destruct H6 as (_&E2&E3&E4). split; [congruence|]. split; [rewrite E2; exact Hc5|auto].
+  split; [apply (PAX_srel LV _ X s5 _ P5 (crel_srel _ _ H6)); rewrite F2; exact HL|].
+  destruct (crel_srel _ _ H6) as (_&E2&E3&E4). split; [congruence|]. split; [rewrite E2; exact Hc5|auto].
 Qed.
 
 (* reset_contraction_indices / _reset_contraction_recipes *)
@@ -771,7 +954,7 @@ Proof.
   destruct H1 as (_&_&E&_). rewrite <- E. exact H2.
 Qed.
 Lemma crel_irl s s' : crel n s s' -> irl s s'.
-Proof. apply srel_weaken. intros q i j. apply Rc_Ri. Qed.
+Proof. intros H. apply crel_srel in H. revert H. apply srel_weaken. intros q i j. apply Rc_Ri. Qed.
 Lemma irl_err s s' : irl s s' -> err s' = false -> err s = false.
 Proof. intros (_&_&_&E) H. destruct (err s); [rewrite E in H by reflexivity; discriminate|reflexivity]. Qed.
 Lemma irl_inds s s' nd v : irl s s' -> rd i_inds s nd = Some v -> rd i_inds s' nd = Some v.
@@ -826,7 +1009,7 @@ Qed.
 Lemma irl_upd nd f s : (forall i, nget nd (info s) = Some i -> Ri (fresh_ok n (sliced s)) nd i (f i)) -> irl s (upd_info nd f s).
 Proof. intros H. apply srel_upd; [intros; apply Ri_refl|exact H]. Qed.
 Lemma rd_crel_inds s s' nd : crel n s s' -> rd i_inds s' nd = rd i_inds s nd.
-Proof. intros H. apply (srel_rd _ i_inds s s' nd H). intros q i j ((E&_)&_). exact E. Qed.
+Proof. intros H. apply (srel_rd _ i_inds s s' nd (crel_srel n _ _ H)). intros q i j ((E&_)&_). exact E. Qed.
 
 (* bounded version: a cached order may only appear on the nodes in P *)
 Definition RiB (LV : node -> legs -> Prop) (P : node -> bool) (nd : node) (i i' : ninfo) : Prop :=
@@ -861,7 +1044,7 @@ Proof. intros H. apply srel_weaken. intros q i j. apply RiB_mono, H. Qed.
 Lemma irlB_irl P s s' : irlB P s s' -> irl s s'.
 Proof. apply srel_weaken. intros q i j. apply RiB_Ri. Qed.
 Lemma crel_irlB P s s' : crel n s s' -> irlB P s s'.
-Proof. apply srel_weaken. intros q i j. apply Rc_RiB. Qed.
+Proof. intros H. apply crel_srel in H. revert H. apply srel_weaken. intros q i j. apply Rc_RiB. Qed.
 Lemma irlB_keep_inds P s s' nd : irlB P s s' -> P nd = false -> rd i_inds s' nd = rd i_inds s nd.
 Proof.
   intros (A1&_) HP. unfold rd. destruct (nget nd (info s)) as [i|] eqn:E.
@@ -883,7 +1066,7 @@ Proof.
   destruct (g_legs n s nd) as [s1 lg]. cbn [fst snd] in H1, I1, C1.
   pose proof (PAe_crel n s s1 HP H1) as P1.
   assert (Er1 : rd i_inds s1 nd = None) by (rewrite (rd_crel_inds s s1 nd H1); exact Er).
-  assert (Esl1 : sliced s1 = sliced s) by apply H1.
+  assert (Esl1 : sliced s1 = sliced s) by apply (crel_srel n _ _ H1).
   assert (HPnd : lenle (length nd) nd = true) by (unfold lenle; apply Nat.leb_refl).
   assert (Hfill : forall s3 v, irlB (lenle (length nd)) s1 s3 -> rd i_inds s3 nd = None ->
             irlB (lenle (length nd)) s (upd_info nd (w_inds (Some v)) s3)).
@@ -1005,7 +1188,7 @@ Proof.
   - eapply mrl_trans; [apply irl_mrl, crel_irl, H13|]. apply srel_upd; [intros; apply Rm_refl|].
     intros i Hi. unfold Rm. cbn. repeat split; auto; [|apply legs_step_refl].
     intros e He. assert (Er3 : rd i_can_dot s3 nd = None).
-    { rewrite (srel_rd _ i_can_dot s s3 nd H13); [exact Er|]. intros q a b ((_&_&Ec&_)&_). exact Ec. }
+    { rewrite (srel_rd _ i_can_dot s s3 nd (crel_srel n _ _ H13)); [exact Er|]. intros q a b ((_&_&Ec&_)&_). exact Ec. }
     rewrite (rd_None_get i_can_dot s3 nd i Er3 Hi) in He. discriminate.
 Qed.
 
@@ -1159,7 +1342,7 @@ Proof.
     pose proof (g_legs_crel n HN s5 c (InvC_chok s5 I5)) as Ha. pose proof (inv_g_legs n HN Hout s5 c I5 Gc) as Ia.
     pose proof (g_legs_cached n HN s5 c) as Ca. destruct (g_legs n s5 c) as [sa lg]. cbn [fst snd] in *.
     split; [apply inv_upd_neutral; [intros; apply cs_inds|exact Ia]|].
-    split; [|eapply sfr_trans; [apply (srel_sfr _ _ _ Ha)|apply upd_sfr]].
+    split; [|eapply sfr_trans; [apply (srel_sfr _ _ _ (crel_srel n _ _ Ha))|apply upd_sfr]].
     intros He. destruct (upd_err _ _ _ He) as [Hea Hk]. destruct Ca as [Ca|Ca]; [contradiction|].
     apply PA_upd; [apply (PAe_crel n s5 sa P5 Ha), Hea|]. intros i Hi [A1 A2]. split; [exact A1|].
     intros _ v Hv. cbn in Hv. injection Hv as <-. unfold rd in Ca. rewrite Hi in Ca. exists lg. split; [exact Ca|].
@@ -1297,7 +1480,7 @@ Qed.
 
 (* a cost-only operation in the current set *)
 Lemma PAX_crelT T X s s' : sliced s = sln -> PAX n (LVT T) X s -> crel n s s' -> PAX n (LVT T) X s'.
-Proof. intros E HP HC. unfold crel in HC. rewrite E in HC. apply (PAX_srel n _ _ X s s' HP HC). intros nd lg. apply LVT_fresh. Qed.
+Proof. intros E HP HC. apply crel_srel in HC. rewrite E in HC. apply (PAX_srel n _ _ X s s' HP HC). intros nd lg. apply LVT_fresh. Qed.
 End TwoSets.
 
 Section RmNode.
@@ -1350,7 +1533,7 @@ Proof.
     set (LV := LVT slo sln (nd :: T)) in *.
     pose proof (g_involved_crel n HN s nd Hc) as H1. destruct (g_involved n s nd) as [s1 inv]. cbn [fst] in H1.
     assert (P1 : PAX n LV noX s1) by (apply (PAX_crelT slo sln _ _ s s1 Esl HP H1)).
-    assert (F1 : sfr s s1) by (apply (srel_sfr _ _ _ H1)).
+    assert (F1 : sfr s s1) by (apply (srel_sfr _ _ _ (crel_srel n _ _ H1))).
     destruct (negb (lmem ind inv)); [split; [apply Hweak; assumption|exact F1]|].
     set (s2 := upd_info nd (w_involved (Some (ldel ind inv))) s1).
     assert (P2 : PAX n LV noX s2) by (apply PAX_keep; [intros i; cbn; auto|exact P1]).
@@ -1359,7 +1542,7 @@ Proof.
     { intros s' (A&B&_). rewrite A, B. auto. }
     pose proof (g_flops_crel n HN s2 nd (proj1 (Hch _ F2))) as H3. destruct (g_flops n s2 nd) as [s3 old_flops]. cbn [fst] in H3.
     assert (P3 : PAX n LV noX s3) by (apply (PAX_crelT slo sln _ _ s2 s3 (proj2 (Hch _ F2)) P2 H3)).
-    assert (F3 : sfr s s3) by (eapply sfr_trans; [exact F2|apply (srel_sfr _ _ _ H3)]).
+    assert (F3 : sfr s s3) by (eapply sfr_trans; [exact F2|apply (srel_sfr _ _ _ (crel_srel n _ _ H3))]).
     set (s4 := set_flops _ (upd_info nd (w_flops (Some (old_flops / d)%Z)) s3)).
     assert (P4 : PAX n LV noX s4).
     { apply (PAX_info _ _ _ (upd_info nd (w_flops (Some (old_flops / d)%Z)) s3)); [reflexivity|]. apply PAX_keep; [intros i; cbn; auto|exact P3]. }
@@ -1368,7 +1551,7 @@ Proof.
     pose proof (g_legs_crel n HN s4 nd (proj1 (Hch _ F4))) as H5. pose proof (g_legs_cached n HN s4 nd) as C5.
     destruct (g_legs n s4 nd) as [s5 lg]. cbn [fst snd] in H5, C5.
     assert (P5 : PAX n LV noX s5) by (apply (PAX_crelT slo sln _ _ s4 s5 (proj2 (Hch _ F4)) P4 H5)).
-    assert (F5 : sfr s s5) by (eapply sfr_trans; [exact F4|apply (srel_sfr _ _ _ H5)]).
+    assert (F5 : sfr s s5) by (eapply sfr_trans; [exact F4|apply (srel_sfr _ _ _ (crel_srel n _ _ H5))]).
     set (X := fun q : node => node_eqb q nd).
     set (s6 := if lmem ind lg then _ else s5).
     assert (H6 : PAX n LV X s6 /\ sfr s s6).
@@ -1382,7 +1565,7 @@ Proof.
       assert (Fa : sfr s sa) by (eapply sfr_trans; [exact F5|apply upd_sfr]).
       pose proof (g_size_crel n HN sa nd (proj1 (Hch _ Fa))) as Hb. destruct (g_size n sa nd) as [sb old_size]. cbn [fst] in Hb.
       assert (Pb : PAX n LV X sb) by (apply (PAX_crelT slo sln _ _ sa sb (proj2 (Hch _ Fa)) Pa Hb)).
-      assert (Fb : sfr s sb) by (eapply sfr_trans; [exact Fa|apply (srel_sfr _ _ _ Hb)]).
+      assert (Fb : sfr s sb) by (eapply sfr_trans; [exact Fa|apply (srel_sfr _ _ _ (crel_srel n _ _ Hb))]).
       set (sc := set_sizes _ sb). split.
       - apply (PAX_info _ _ _ (upd_info nd (w_size (Some (old_size / d)%Z)) sc)); [reflexivity|].
         apply PAX_keep; [intros i; cbn; auto|]. apply (PAX_info _ _ _ sb); [reflexivity|exact Pb].
@@ -1416,24 +1599,24 @@ Proof.
     destruct (upd_sfr [hd 0 nd] (fun _ => noinfo) s) as (F1&F2&F3). apply sfr_fields; cbn; auto. }
   assert (Hch : forall s', sfr s s' -> chok (children s')) by (intros s' (A&_); rewrite A; exact Hc).
   pose proof (g_involved_crel n HN s nd Hc) as H1. destruct (g_involved n s nd) as [s1 inv]. cbn [fst] in H1.
-  assert (F1 : sfr s s1) by (apply (srel_sfr _ _ _ H1)).
+  assert (F1 : sfr s s1) by (apply (srel_sfr _ _ _ (crel_srel n _ _ H1))).
   destruct (negb (lmem ind inv)); [exact F1|].
   set (s2 := upd_info nd (w_involved (Some (ldel ind inv))) s1).
   assert (F2 : sfr s s2) by (eapply sfr_trans; [exact F1|apply upd_sfr]).
   pose proof (g_flops_crel n HN s2 nd (Hch _ F2)) as H3. destruct (g_flops n s2 nd) as [s3 old_flops]. cbn [fst] in H3.
-  assert (F3 : sfr s s3) by (eapply sfr_trans; [exact F2|apply (srel_sfr _ _ _ H3)]).
+  assert (F3 : sfr s s3) by (eapply sfr_trans; [exact F2|apply (srel_sfr _ _ _ (crel_srel n _ _ H3))]).
   set (s4 := set_flops _ (upd_info nd (w_flops (Some (old_flops / d)%Z)) s3)).
   assert (F4 : sfr s s4).
   { eapply sfr_trans; [exact F3|]. eapply sfr_trans; [apply upd_sfr|]. apply sfr_fields; cbn; auto. }
   pose proof (g_legs_crel n HN s4 nd (Hch _ F4)) as H5. destruct (g_legs n s4 nd) as [s5 lg]. cbn [fst snd] in H5.
-  assert (F5 : sfr s s5) by (eapply sfr_trans; [exact F4|apply (srel_sfr _ _ _ H5)]).
+  assert (F5 : sfr s s5) by (eapply sfr_trans; [exact F4|apply (srel_sfr _ _ _ (crel_srel n _ _ H5))]).
   set (s6 := if lmem ind lg then _ else s5).
   assert (F6 : sfr s s6).
   { unfold s6. destruct (lmem ind lg); [|exact F5].
     set (sa := upd_info nd (w_legs (Some (ldel ind lg))) s5).
     assert (Fa : sfr s sa) by (eapply sfr_trans; [exact F5|apply upd_sfr]).
     pose proof (g_size_crel n HN sa nd (Hch _ Fa)) as Hb. destruct (g_size n sa nd) as [sb old_size]. cbn [fst] in Hb.
-    assert (Fb : sfr s sb) by (eapply sfr_trans; [exact Fa|apply (srel_sfr _ _ _ Hb)]).
+    assert (Fb : sfr s sb) by (eapply sfr_trans; [exact Fa|apply (srel_sfr _ _ _ (crel_srel n _ _ Hb))]).
     set (sc := set_sizes _ sb).
     eapply sfr_trans; [exact Fb|]. eapply sfr_trans; [apply (sfr_fields sb sc); cbn; auto|].
     eapply sfr_trans; [apply upd_sfr|apply sfr_fields; cbn; auto]. }
@@ -1493,7 +1676,7 @@ Proof.
   pose proof (crel_trans n _ _ _ H1 H2) as H02.
   set (x := mkSl ind pj). set (s3 := match pj with None => set_mult (mult s2 * zget ind (szd n))%Z s2 | Some _ => s2 end).
   set (sl := sliced s) in *. set (sl' := sort_by (sl_le n) (sliced s3 ++ [x])).
-  assert (Esl3 : sliced s3 = sl) by (unfold s3; destruct pj; cbn; apply H02).
+  assert (Esl3 : sliced s3 = sl) by (unfold s3; destruct pj; cbn; apply (crel_srel n _ _ H02)).
   assert (HPsl : Permutation sl' (sl ++ [x])) by (unfold sl'; rewrite Esl3; apply sort_by_perm).
   assert (Hrem : forall j, In j (removed sl') <-> j = ind \/ In j (removed sl)).
   { intros j. unfold removed. split.
@@ -1510,7 +1693,7 @@ Proof.
   pose proof (rin_fold_A sl sl' ind (zget ind (szd n)) Hrem (map fst (info s4)) [] s4 Hout eq_refl Hc4) as HF.
   assert (He2 : err s2 = false -> PAX n (LVT sl sl' (map fst (info s4) ++ [])) noX s4).
   { intros He2. rewrite app_nil_r. apply (PAX_info n _ _ s2 s4 Einfo4). rewrite Einfo4. apply (PAX_old_to_T sl sl' s2).
-    assert (P2 : PA n s2) by (apply (PAe_crel n s s2 HP H02), He2). unfold PA in P2. destruct H02 as (_&_&E&_). rewrite E in P2. exact P2. }
+    assert (P2 : PA n s2) by (apply (PAe_crel n s s2 HP H02), He2). unfold PA in P2. destruct (crel_srel n _ _ H02) as (_&_&E&_). rewrite E in P2. exact P2. }
   assert (He4 : err s4 = false) by (apply (sfr_err _ _ (rin_fold_sfr ind (zget ind (szd n)) (map fst (info s4)) s4 Hc4) He5)).
   destruct (HF (He2 ltac:(rewrite <- Eerr4; exact He4))) as [P5 F5]. fold s5 in P5, F5.
   assert (Esl5 : sliced s5 = sl') by (destruct F5 as (_&E&_); rewrite E; reflexivity).
@@ -1522,7 +1705,7 @@ Qed.
 
 (* ---- restore_ind ---- *)
 Lemma crel_nodup s s' : crel n s s' -> NoDup (nkeys (info s)) -> NoDup (nkeys (info s')).
-Proof. intros (A&_) H. rewrite (irel_nkeys _ _ _ A). exact H. Qed.
+Proof. intros [(A&_) _] H. rewrite (irel_nkeys _ _ _ A). exact H. Qed.
 Lemma remove_node_nodup nd s : chok (children s) -> NoDup (nkeys (info s)) -> NoDup (nkeys (info (remove_node n nd s))).
 Proof.
   intros Hc ND. rewrite remove_node_eq. destruct (Nat.eqb (length nd) 1).
@@ -1617,10 +1800,10 @@ Proof.
     pose proof (g_legs_crel n HN sa r (crel_chok n _ _ H1 Hc)) as H2. destruct (g_legs n sa r) as [sb lr]. cbn [fst] in *.
     eapply crel_trans; eassumption. }
   destruct Y as [sb hit]. cbn [fst] in HY.
-  assert (Eslb : sliced sb = sln) by (destruct HY as (_&_&E&_); congruence).
+  assert (Eslb : sliced sb = sln) by (destruct (crel_srel n _ _ HY) as (_&_&E&_); congruence).
   assert (Hcb : chok (children sb)) by apply (crel_chok n _ _ HY Hc).
   assert (NDb : NoDup (nkeys (info sb))) by apply (crel_nodup _ _ HY ND).
-  assert (Emb : err s = true -> err sb = true) by apply HY.
+  assert (Emb : err s = true -> err sb = true) by apply (crel_srel n _ _ HY).
   destruct hit.
   2:{ split; [unfold lfr; rewrite Eslb, Esl; auto|]. intros HP. apply (PAX_crelT slo sln [] noX s sb Esl HP HY). }
   destruct (remove_node_facts n HN p sb Hcb) as (R1&R2&R3). pose proof (remove_node_nodup p sb Hcb NDb) as R4.
@@ -1742,7 +1925,7 @@ Proof.
   intros Hc Hx Hy ND. rewrite contract_pair_eq. destruct (cp_pre_fields x y lg c z s) as (F1&F2&F3).
   set (s5 := cp_pre x y lg c z s) in *.
   assert (Hc5 : chok (children s5)) by (rewrite F1; apply chok_pair; assumption).
-  destruct (update_tracked_crel n HN (nunion x y) s5 Hc5) as (_&E2&E3&E4).
+  destruct (crel_srel n _ _ (update_tracked_crel n HN (nunion x y) s5 Hc5)) as (_&E2&E3&E4).
   split; [congruence|]. split; [rewrite E2; exact Hc5|auto].
 Qed.
 
@@ -1960,7 +2143,7 @@ Proof.
   pose proof (crel_err n _ _ H3 He3) as He2. pose proof (crel_err n _ _ H2 He2) as He1.
   apply PB_upd_field; [apply (PBe_crel s s3 HP H13), He3|intros i; cbn; auto|].
   intros i Hi HB l' r' Hch. destruct (HB l' r' Hch) as (B1&B2&B3&B4). cbn. split; [exact B1|]. split; [exact B2|]. split; [exact B3|].
-  intros b [= <-]. assert (Ech3 : children s3 = children s) by apply H13. rewrite Ech3, E in Hch. injection Hch as <- <-.
+  intros b [= <-]. assert (Ech3 : children s3 = children s) by apply (crel_srel n _ _ H13). rewrite Ech3, E in Hch. injection Hch as <- <-.
   exists sp, sl, sr. split.
   - pose proof (irl_legs n s1 s3 nd sp (crel_irl n _ _ (crel_trans n _ _ _ H2 H3)) (C1 He1)) as H. unfold rd in H. rewrite Hi in H. exact H.
   - split; [apply (irl_legs n s2 s3 l sl (crel_irl n _ _ H3) (C2 He2))|]. split; [apply C3, He3|reflexivity].
